@@ -21,11 +21,13 @@ type Scenario struct {
 	Kind      string   `json:"kind"`      // bytes|ints|map|ptr|sws|struct|string
 	Placement string   `json:"placement"` // node|medium|big
 	Init      []int    `json:"init"`      // datum of key i (keys are 0..len-1)
+	Fillers   int      `json:"fillers,omitempty"`    // other one-node stores, read by an "evict" step to push the node out of a small L1
+	PreUpdate bool     `json:"pre_update,omitempty"` // set-up also updates every item once (separate-segment stores: node slots then carry no value)
 	Segs      [][]Step `json:"segs"`
 }
 
 type Step struct {
-	Op   string `json:"op"`             // setup|tx|dropl1
+	Op   string `json:"op"`             // setup|tx|dropl1|evict
 	Mode string `json:"mode,omitempty"` // w|r
 	Acts []Act  `json:"acts,omitempty"`
 	End  string `json:"end,omitempty"` // commit|rollback
@@ -288,6 +290,60 @@ func runSegment[TV any](k kind[TV], dir string, sc *Scenario, seg int, handles m
 					return out, fmt.Errorf("setup add: %v %v", ok, err)
 				}
 			}
+			for f := 0; f < sc.Fillers; f++ {
+				so := sop.ConfigureStore(fmt.Sprintf("fill%d", f), true, 8, "C38 filler", sop.SmallData, "")
+				so.IsPrimitiveKey = true
+				fb, err := database.NewBtree[int, int](ctx, dbOpts(dir), so.Name, tx, nil, so)
+				if err != nil {
+					return out, err
+				}
+				if ok, err := fb.Add(ctx, 1, f); err != nil || !ok {
+					return out, fmt.Errorf("setup filler add: %v %v", ok, err)
+				}
+			}
+			if err := tx.Commit(ctx); err != nil {
+				return out, err
+			}
+			if sc.PreUpdate {
+				tx, err := database.BeginTransaction(ctx, dbOpts(dir), sop.ForWriting)
+				if err != nil {
+					return out, err
+				}
+				b, err := database.OpenBtree[int, TV](ctx, dbOpts(dir), "c38", tx, nil)
+				if err != nil {
+					return out, err
+				}
+				for key, d := range sc.Init {
+					if found, err := b.Find(ctx, key, false); err != nil || !found {
+						return out, fmt.Errorf("setup update find: %v %v", found, err)
+					}
+					if ok, err := b.UpdateCurrentValue(ctx, k.mk(d)); err != nil || !ok {
+						return out, fmt.Errorf("setup update: %v %v", ok, err)
+					}
+				}
+				if err := tx.Commit(ctx); err != nil {
+					return out, err
+				}
+			}
+		case "evict":
+			// natural eviction: the process runs with a tiny L1 (public capacity knobs, see childSeg);
+			// reading the filler stores' nodes pushes the scenario's node out of the MRU while it stays in L2
+			tx, err := database.BeginTransaction(ctx, dbOpts(dir), sop.ForReading)
+			if err != nil {
+				return out, err
+			}
+			for f := 0; f < sc.Fillers; f++ {
+				fb, err := database.OpenBtree[int, int](ctx, dbOpts(dir), fmt.Sprintf("fill%d", f), tx, nil)
+				if err != nil {
+					return out, err
+				}
+				if ok, err := fb.First(ctx); err != nil || !ok {
+					return out, fmt.Errorf("evict: filler %d: %v %v", f, ok, err)
+				}
+				if _, err := fb.GetCurrentValue(ctx); err != nil {
+					return out, err
+				}
+			}
 			if err := tx.Commit(ctx); err != nil {
 				return out, err
 			}
@@ -429,6 +485,11 @@ func childSeg(args []string) int {
 	}
 	seg := 0
 	fmt.Sscanf(args[1], "%d", &seg)
+	if os.Getenv("VERIF_C38_SMALL_L1") != "" {
+		// public capacity knobs of the process-wide L1 (read when the first transaction creates it)
+		cache.DefaultStandaloneMinCapacity, cache.DefaultStandaloneMaxCapacity = 2, 4
+		cache.DefaultMinCapacity, cache.DefaultMaxCapacity = 2, 4
+	}
 	out := map[int]SegResult{}
 	for i := range batch {
 		if seg >= len(batch[i].Sc.Segs) {
